@@ -24,7 +24,7 @@ STAGES = {
     "counts": {"counts", "turns", "loops"},
     "flow": {"tunnels", "threads"},
     "functions": {"functions"},
-    "more": {"choice_tags", "typed_vars", "if_diverts", "stitches", "cond_choices", "externals", "label_diverts", "params", "divert_vars", "sugar", "switch"},
+    "more": {"choice_tags", "typed_vars", "if_diverts", "stitches", "cond_choices", "externals", "label_diverts", "params", "divert_vars", "sugar", "switch", "refs"},
 }
 DEFAULT = set().union(*STAGES.values())
 
@@ -60,6 +60,8 @@ def save_value(v):
         return {"t": "str", "v": chars(v[1:])}
     if isinstance(v, dict) and set(v) == {"^->"}:
         return {"t": "div", "v": v["^->"]}
+    if isinstance(v, dict) and "^var" in v:
+        return {"t": "ref", "v": v["^var"]}
     return None
 
 
